@@ -173,12 +173,6 @@ Print Assumptions C01_iteration_in_order.
 Theorem C01_let_binds_values_refuted : fst (runM 60 w_let_values) <> fst (runS 60 w_let_values) /\ guardb 60 w_let_values = false.
 Proof. exact let_binds_values_refuted. Qed.
 Print Assumptions C01_let_binds_values_refuted.
-(* the binder fills one scope: a closure made by the default form of an &optional parameter sees the parameters bound
-   after it (known finding C01-default-form-closure-sees-later-parameters; guard clause locate_m) *)
-Theorem C01_default_closure_refuted :
-  fst (runM 60 w_default_closure) = Ok (VInt 5) /\ fst (runS 60 w_default_closure) = Ok (VInt 1) /\ guardb 60 w_default_closure = false.
-Proof. exact default_closure_refuted. Qed.
-Print Assumptions C01_default_closure_refuted.
 (* (10) Repaired defects (repo_fixes/C01-6 ...): the former witnesses, evaluated in the three modes - the model of the
    repaired Go code, the reference evaluator and the guard run agree, i.e. the programs are now inside the guard.
    End test of do / do* that is not a list form (t, a variable): evaluated like any other test. *)
@@ -358,3 +352,18 @@ Theorem C01_case_key_list_examples :
     | _, _, _ => false end) [Slip; Ref; Chk] = true.
 Proof. exact case_key_list_examples. Qed.
 Print Assumptions C01_case_key_list_examples.
+
+(* default forms (repo_fixes/C01-21): each parameter that gets the value of its default form is bound in a scope of its
+   own, exactly as let* binds - the default form is evaluated in the scope built so far -, in every mode; the former
+   witness yields 1 and a closure made by a default form shares the earlier parameters with the body. *)
+Theorem C01_defaults_like_letstar : forall m ev st sc bnd x e os, existsb (String.eqb x) bnd = false ->
+  ev_defaults m ev st sc bnd ((x, e) :: os) =
+  bind (ev st sc e) (fun v st1 => bindo (store_red m v) st1 (fun a =>
+    ev_defaults m ev (snd (alloc st1 [(x, a)])) ((List.length (frames st1), 1) :: sc) (x :: bnd) os)).
+Proof. exact defaults_like_letstar. Qed.
+Print Assumptions C01_defaults_like_letstar.
+Theorem C01_default_closure_lexical :
+  forallb (fun m => match fst (run m 60 w_default_closure), fst (run m 60 w_default_shares) with
+                    | Ok (VInt 1), Ok (VInt 7) => true | _, _ => false end) [Slip; Ref; Chk] = true.
+Proof. exact default_closure_lexical. Qed.
+Print Assumptions C01_default_closure_lexical.
